@@ -86,6 +86,8 @@ type env struct {
 	r      *poolsim.Runner
 	st     stats
 	report func(kind, detail string)
+	// skipValid: the set is not meant to validate as a sequence (a duplicated member)
+	skipValid bool
 }
 
 // buildSet makes a set valid at node `at` (proofs of that node).
@@ -324,8 +326,8 @@ func (e *env) expectation(txs []types.V2Transaction, fromN, toN *chaingen.Node, 
 		return ex
 	}
 	rev, app := poolsim.TreePath(fromN, toN)
-	if len(rev)+len(app) > 144 {
-		ex.mustErr = "path longer than 144 blocks"
+	if poolsim.TooFar(len(rev) + len(app)) {
+		ex.mustErr = fmt.Sprintf("path longer than the supported distance (%d blocks)", poolsim.MaxDist)
 		return ex
 	}
 	for _, x := range append(append([]*chaingen.Node(nil), rev...), app...) {
@@ -389,7 +391,9 @@ func (e *env) judge(what string, orig, out []types.V2Transaction, err error, ex 
 		return
 	}
 	e.st["rebase-ok"]++
-	e.validAtTarget(what, orig, out, toN)
+	if !e.skipValid {
+		e.validAtTarget(what, orig, out, toN)
+	}
 	if len(got) < len(orig) {
 		e.st["rebase-dropped-confirmed"]++
 	}
@@ -553,12 +557,104 @@ func runCase(cs poolsim.Case, coqWanted bool) (coqOut string, failOut *failure, 
 	}
 	r := poolsim.NewRunner(w, report)
 	st := stats{}
-	e := &env{w, r, st, report}
+	e := &env{w: w, r: r, st: st, report: report}
 	nodeByIdx := func(i int) *chaingen.Node {
 		if i < 0 || i >= len(t.Nodes) {
 			return nil
 		}
 		return t.Nodes[i]
+	}
+	// doUpdate: one UpdateV2TransactionSet call with its expectation, monitors and counters
+	doUpdate := func(g *rng.R, set []types.V2Transaction, metas []poolsim.Meta, fromN, toN *chaingen.Node, kind, corrupt string) ([]types.V2Transaction, bool) {
+		from, to := w.Info(fromN).Index, w.Info(toN).Index
+		fromOK, heightOff, toBad := true, false, ""
+		switch corrupt {
+		case "unknown-target":
+			g.Bytes(to.ID[:])
+			toBad = "the target index is unknown"
+		case "zero-target":
+			to = types.ChainIndex{}
+			toBad = "the target is the zero index"
+		case "target-height":
+			// a known block under a wrong height
+			to.Height += 1 + uint64(g.Intn(3))
+			heightOff = true
+		case "proof":
+			done := false
+			for i := range set {
+				for _, el := range elems(&set[i]) {
+					if !done && len(el.se.MerkleProof) > 0 {
+						*el.se = el.se.Copy()
+						el.se.MerkleProof[g.Intn(len(el.se.MerkleProof))][3] ^= 4
+						done = true
+					}
+				}
+			}
+			if !done {
+				return nil, false
+			}
+		case "leaf":
+			done := false
+			for i := range set {
+				for _, el := range elems(&set[i]) {
+					if !done && el.se.LeafIndex != types.UnassignedLeafIndex {
+						*el.se = el.se.Copy()
+						el.se.LeafIndex ^= 1
+						done = true
+					}
+				}
+			}
+		case "unknown-basis":
+			g.Bytes(from.ID[:])
+			fromOK = false
+		case "basis-height":
+			// a known block under a wrong height: the code looks the basis up by id, so it may
+			// still find a path; whatever it returns must agree with the ledger at the target
+			from.Height += 1 + uint64(g.Intn(3))
+			heightOff = true
+		}
+		// the accumulator the manager holds for the basis decides whether the proofs verify
+		pok := true
+		if corrupt != "unknown-basis" {
+			els := r.StoredElements(fromN).FullState.Elements
+			for i := range set {
+				ok := els.ValidateTransactionElements(set[i]) == nil
+				metas[i].POK = ok
+				pok = pok && ok
+			}
+		}
+		ex := e.expectation(set, fromN, toN, fromOK, pok)
+		if heightOff && ex.mustErr == "" {
+			ex.mayErr = "the height of an index does not match its block"
+		}
+		if toBad != "" && ex.mustErr == "" {
+			ex.mustErr = toBad
+		}
+		if corrupt != "" {
+			st["corruption:"+corrupt]++
+		}
+		st["set-shape:"+kind]++
+		orig := deepCopy(set)
+		r.CorruptIndex = heightOff
+		out, err, pan := r.Update(set, metas, from, to)
+		st["updates"]++
+		d := len(func() []*chaingen.Node { a, b := poolsim.TreePath(fromN, toN); return append(a, b...) }())
+		st[fmt.Sprintf("distance:%d", min(d, 7))]++
+		rv, _ := poolsim.TreePath(fromN, toN)
+		if len(rv) > 0 && d > len(rv) {
+			st["updates-across-forks"]++
+		}
+		what := fmt.Sprintf("UpdateV2TransactionSet(%s set of %d%s, block %d -> block %d)", kind, len(set), map[bool]string{true: ", corruption " + corrupt, false: ""}[corrupt != ""], fromN.Idx, toN.Idx)
+		if pan {
+			report("c13-panic", what+" panicked")
+			return nil, false
+		}
+		if from == to {
+			return nil, false
+		}
+		e.skipValid = kind == "dup"
+		e.judge(what, orig, out, err, ex, toN)
+		return out, err == nil && fail == nil
 	}
 	for _, stp := range cs.Plan {
 		if fail != nil {
@@ -568,8 +664,8 @@ func runCase(cs poolsim.Case, coqWanted bool) (coqOut string, failOut *failure, 
 		switch stp.Kind {
 		case "chain":
 			r.Chain(stp.Op)
-		case "update":
-			// stp.Op.Nodes = [from, to]; Flavor = set kind [+ "/" + corruption]
+		case "update", "update2":
+			// stp.Op.Nodes = [from, to] (update2: [from, via, to]); Flavor = set kind [+ "/" + corruption]
 			fromN, toN := nodeByIdx(stp.Op.Nodes[0]), nodeByIdx(stp.Op.Nodes[1])
 			if fromN == nil || toN == nil || !fromN.ChainValid() || !toN.ChainValid() || !r.Known[fromN] || !r.Known[toN] {
 				continue
@@ -578,81 +674,55 @@ func runCase(cs poolsim.Case, coqWanted bool) (coqOut string, failOut *failure, 
 			if i := bytes.IndexByte([]byte(kind), '/'); i >= 0 {
 				kind, corrupt = stp.Flavor[:i], stp.Flavor[i+1:]
 			}
-			set, metas := e.buildSet(g, fromN, toN, kind)
-			if len(set) == 0 {
-				st["update-skipped"]++
-				continue
-			}
-			from, to := w.Info(fromN).Index, w.Info(toN).Index
-			fromOK, heightOff := true, false
-			switch corrupt {
-			case "proof":
-				done := false
-				for i := range set {
-					for _, el := range elems(&set[i]) {
-						if !done && len(el.se.MerkleProof) > 0 {
-							*el.se = el.se.Copy()
-							el.se.MerkleProof[g.Intn(len(el.se.MerkleProof))][3] ^= 4
-							done = true
-						}
-					}
+			var set []types.V2Transaction
+			var metas []poolsim.Meta
+			switch kind {
+			case "empty":
+				// no transactions at all (nil and empty alternate): the indices are still judged
+				if g.Bool() {
+					set = []types.V2Transaction{}
 				}
-				if !done {
+			case "dup":
+				// the same transaction twice
+				set, metas = e.buildSet(g, fromN, toN, "fresh")
+				if len(set) == 0 {
+					st["update-skipped"]++
 					continue
 				}
-			case "leaf":
-				done := false
-				for i := range set {
-					for _, el := range elems(&set[i]) {
-						if !done && el.se.LeafIndex != types.UnassignedLeafIndex {
-							*el.se = el.se.Copy()
-							el.se.LeafIndex ^= 1
-							done = true
-						}
+				set, metas = append(set[:1:1], set[0].DeepCopy()), append(metas[:1:1], metas[0])
+			default:
+				set, metas = e.buildSet(g, fromN, toN, kind)
+				if len(set) == 0 {
+					st["update-skipped"]++
+					continue
+				}
+			}
+			out, ok := doUpdate(g, set, metas, fromN, toN, kind, corrupt)
+			if stp.Kind == "update2" && ok && len(out) > 0 && len(stp.Op.Nodes) > 2 {
+				// history dependence: what the first call returned (the very same objects) is the input of a
+				// second rebase from the first target to a third block
+				if cN := nodeByIdx(stp.Op.Nodes[2]); cN != nil && cN.ChainValid() && r.Known[cN] {
+					m2 := make([]poolsim.Meta, len(out))
+					for i := range out {
+						m2[i] = poolsim.Meta{SignedAt: fromN.Height, POK: true}
 					}
-				}
-			case "unknown-basis":
-				g.Bytes(from.ID[:])
-				fromOK = false
-			case "basis-height":
-				// a known block under a wrong height: the code looks the basis up by id, so it may
-				// still find a path; whatever it returns must agree with the ledger at the target
-				from.Height += 1 + uint64(g.Intn(3))
-				heightOff = true
-			}
-			// the accumulator the manager holds for the basis decides whether the proofs verify
-			pok := true
-			if corrupt != "unknown-basis" {
-				els := r.StoredElements(fromN).FullState.Elements
-				for i := range set {
-					ok := els.ValidateTransactionElements(set[i]) == nil
-					metas[i].POK = ok
-					pok = pok && ok
+					st["chained-rebases"]++
+					doUpdate(g, out, m2, toN, cN, kind+" (output of a previous rebase)", "")
 				}
 			}
-			ex := e.expectation(set, fromN, toN, fromOK, pok)
-			if heightOff && ex.mustErr == "" {
-				ex.mayErr = "the basis height does not match the block"
+		case "reopen":
+			// a new manager over the same store (the pool is in memory only: done while it is empty)
+			if p1, p2 := r.Pool(); len(p1)+len(p2) == 0 {
+				if r.LastReverted() != nil {
+					r.NoCoq = "reopened (the re-offered transactions of the last reverted block are forgotten)"
+				}
+				if o := r.Sim.Do(mgrsim.Op{Kind: "reopen"}); o.Err || o.Panic {
+					report("c13-panic", "reopening the manager over its store failed: "+o.ErrText)
+					continue
+				}
+				r.CM = r.Sim.CM
+				st["reopens"]++
 			}
-			orig := deepCopy(set)
-			r.CorruptIndex = heightOff
-			out, err, pan := r.Update(set, metas, from, to)
-			st["updates"]++
-			d := len(func() []*chaingen.Node { a, b := poolsim.TreePath(fromN, toN); return append(a, b...) }())
-			st[fmt.Sprintf("distance:%d", min(d, 7))]++
-			rv, _ := poolsim.TreePath(fromN, toN)
-			if len(rv) > 0 && d > len(rv) {
-				st["updates-across-forks"]++
-			}
-			what := fmt.Sprintf("UpdateV2TransactionSet(%s set of %d%s, block %d -> block %d)", kind, len(set), map[bool]string{true: ", corruption " + corrupt, false: ""}[corrupt != ""], fromN.Idx, toN.Idx)
-			if pan {
-				report("c13-panic", what+" panicked")
-				continue
-			}
-			if from == to {
-				continue
-			}
-			e.judge(what, orig, out, err, ex, toN)
 		case "submit":
 			if s := r.Fabricate(g, stp.Flavor); s != nil {
 				var snap []byte
@@ -709,9 +779,9 @@ func runCase(cs poolsim.Case, coqWanted bool) (coqOut string, failOut *failure, 
 			switch {
 			case pan:
 				report("c13-panic", what+" panicked")
-			case err == nil && len(rv)+len(ap) > 144:
-				report("c13-rebase-missing-error", what+": the basis is more than 144 blocks away, yet the set was accepted")
-			case err != nil && len(rv)+len(ap) <= 144 && m.POK && !unavailable:
+			case err == nil && poolsim.TooFar(len(rv)+len(ap)):
+				report("c13-rebase-missing-error", fmt.Sprintf("%s: the basis is more than the supported distance (%d blocks) away, yet the set was accepted", what, poolsim.MaxDist))
+			case err != nil && !poolsim.TooFar(len(rv)+len(ap)) && m.POK && !unavailable:
 				report("c13-rebase-unexpected-error", fmt.Sprintf("%s failed: %v", what, err))
 			}
 		case "txset":
@@ -825,7 +895,7 @@ func runCase(cs poolsim.Case, coqWanted bool) (coqOut string, failOut *failure, 
 				m.SignedAt = bn.Height
 				m.POK = r.StoredElements(bn).FullState.Elements.ValidateTransactionElements(txn) == nil
 				rv, ap := poolsim.TreePath(bn, tip)
-				pathTooLong = len(rv)+len(ap) > 144
+				pathTooLong = poolsim.TooFar(len(rv) + len(ap))
 				for _, x := range append(rv, ap...) {
 					if !r.Applied[x] {
 						pathUnavailable = true
@@ -1045,7 +1115,7 @@ func runCase(cs poolsim.Case, coqWanted bool) (coqOut string, failOut *failure, 
 				continue
 			}
 			if pathTooLong {
-				report("c13-set-missing-error", what+": the basis is more than 144 blocks (reverted plus applied) away from the tip, yet the call succeeded")
+				report("c13-set-missing-error", fmt.Sprintf("%s: the basis is more than the supported distance (%d blocks, reverted plus applied) away from the tip, yet the call succeeded", what, poolsim.MaxDist))
 				continue
 			}
 			if idx != w.Info(tip).Index {
@@ -1264,6 +1334,9 @@ func runCase(cs poolsim.Case, coqWanted bool) (coqOut string, failOut *failure, 
 			}
 		}
 	}
+	for k, v := range r.Stats {
+		st[k] += v
+	}
 	coq := ""
 	if coqWanted && r.NoCoq == "" && fail == nil {
 		coq = r.CoqCase()
@@ -1271,8 +1344,8 @@ func runCase(cs poolsim.Case, coqWanted bool) (coqOut string, failOut *failure, 
 	return coq, fail, st, r
 }
 
-var setKinds = []string{"fresh", "eph-chain", "eph-chain", "mixed", "block-child", "block-child", "block-parent", "block-parent-child-only", "block-parent-child-only", "multi-confirm", "builder"}
-var corruptions = []string{"proof", "leaf", "unknown-basis", "basis-height"}
+var setKinds = []string{"fresh", "eph-chain", "eph-chain", "mixed", "block-child", "block-child", "block-parent", "block-parent-child-only", "block-parent-child-only", "multi-confirm", "builder", "empty", "dup"}
+var corruptions = []string{"proof", "leaf", "unknown-basis", "basis-height", "unknown-target", "zero-target", "target-height"}
 
 // genPlan: submit the whole tree (every branch), rebase sets between every pair of known
 // blocks within distance 6, then pool scenarios.
@@ -1304,6 +1377,10 @@ func genPlan(g *rng.R, t *chaingen.Tree, pairsBudget int) []poolsim.Step {
 			fl += "/" + corruptions[g.Intn(len(corruptions))]
 		}
 		plan = append(plan, poolsim.Step{Kind: "update", Op: mgrsim.Op{Nodes: []int{p[0], p[1]}}, Flavor: fl, Seed: g.U64()})
+		if k == pairsBudget/2 && len(t.Nodes)%4 == 0 {
+			// a quarter of the trees: the second half of the rebases runs on a manager reopened over the store
+			plan = append(plan, poolsim.Step{Kind: "reopen"})
+		}
 	}
 	// members confirmed by different blocks: from a block to its descendants 2..4 below
 	var deep [][2]int
@@ -1324,6 +1401,24 @@ func genPlan(g *rng.R, t *chaingen.Tree, pairsBudget int) []poolsim.Step {
 			break
 		}
 		plan = append(plan, poolsim.Step{Kind: "update", Op: mgrsim.Op{Nodes: []int{deep[pi][0], deep[pi][1]}}, Flavor: "multi-confirm", Seed: g.U64()})
+	}
+	// chained rebases a -> b -> c: the second call is given the objects the first returned
+	for k, pi := range g.Perm(len(pairs)) {
+		if k >= 6 {
+			break
+		}
+		p := pairs[pi]
+		c := pairs[g.Intn(len(pairs))][1]
+		plan = append(plan, poolsim.Step{Kind: "update2", Op: mgrsim.Op{Nodes: []int{p[0], p[1], c}}, Flavor: []string{"fresh", "eph-chain", "mixed", "block-child"}[g.Intn(4)], Seed: g.U64()})
+	}
+	// every set shape with a proper target and with every defective one, on the first pairs
+	for k, pi := range g.Perm(len(pairs)) {
+		if k >= 4 {
+			break
+		}
+		p := pairs[pi]
+		fl := []string{"empty", "dup", "empty/unknown-basis", "fresh/unknown-target", "fresh/zero-target", "eph-chain/target-height", "empty/unknown-target"}[(k+int(g.U64()%7))%7]
+		plan = append(plan, poolsim.Step{Kind: "update", Op: mgrsim.Op{Nodes: []int{p[0], p[1]}}, Flavor: fl, Seed: g.U64()})
 	}
 	// equal indices
 	plan = append(plan, poolsim.Step{Kind: "update", Op: mgrsim.Op{Nodes: []int{1, 1}}, Flavor: "fresh", Seed: g.U64()})
@@ -1347,15 +1442,20 @@ func genPlan(g *rng.R, t *chaingen.Tree, pairsBudget int) []poolsim.Step {
 	return plan
 }
 
-// the long line: sets built at block 2 rebased over 143..146 blocks
+// the long line: sets built at block 2 rebased over D-1..D+2 blocks (D: the supported distance)
 func longLine(seed uint64) poolsim.Case {
-	cs := poolsim.Case{Seed: seed*131 + 7, Regime: 2, Opts: chaingen.GenOpts{Blocks: 150, Branchiness: 0, TxPerBlock: 0}}
+	D := poolsim.MaxDist
+	n := D + 6
+	cs := poolsim.Case{Seed: seed*131 + 7, Regime: 2, Opts: chaingen.GenOpts{Blocks: n, Branchiness: 0, TxPerBlock: 0}}
 	var ids []int
-	for i := 1; i <= 150; i++ {
+	for i := 1; i <= n; i++ {
 		ids = append(ids, i)
 	}
 	cs.Plan = []poolsim.Step{{Kind: "chain", Op: mgrsim.Op{Kind: "add", Nodes: ids}}}
-	for _, d := range []int{143, 144, 145, 146} {
+	for _, d := range []int{D - 1, D, D + 1, D + 2} {
+		if d < 1 {
+			continue
+		}
 		for _, k := range []string{"fresh", "eph-chain"} {
 			cs.Plan = append(cs.Plan, poolsim.Step{Kind: "update", Op: mgrsim.Op{Nodes: []int{2, 2 + d}}, Flavor: k, Seed: uint64(d)})
 			cs.Plan = append(cs.Plan, poolsim.Step{Kind: "update", Op: mgrsim.Op{Nodes: []int{2 + d, 2}}, Flavor: k, Seed: uint64(d)})
@@ -1364,17 +1464,18 @@ func longLine(seed uint64) poolsim.Case {
 	return cs
 }
 
-// the long fork: a trunk of 2 blocks, branch A of 145 and branch B of 146 empty blocks; rebases
-// between the branches with leg pairs on the boundary of the supported distance
+// the long fork: a trunk of 2 blocks, branch A of D+1 and branch B of D+2 empty blocks (D: the
+// supported distance); rebases between the branches with leg pairs on the boundary of D
 func longFork(seed uint64) poolsim.Case {
+	D := poolsim.MaxDist
 	shape := []int{0, 1}
-	A := func(k int) int { return 2 + k }   // k = 1..145
-	B := func(j int) int { return 147 + j } // j = 1..146
-	for k := 1; k <= 145; k++ {
+	A := func(k int) int { return 2 + k }     // k = 1..D+1
+	B := func(j int) int { return D + 3 + j } // j = 1..D+2
+	for k := 1; k <= D+1; k++ {
 		shape = append(shape, A(k)-1)
 	}
 	shape = append(shape, 2)
-	for j := 2; j <= 146; j++ {
+	for j := 2; j <= D+2; j++ {
 		shape = append(shape, B(j)-1)
 	}
 	cs := poolsim.Case{Seed: seed*151 + 11, Regime: 2, Opts: chaingen.GenOpts{Shape: shape, TxPerBlock: 0}}
@@ -1388,15 +1489,22 @@ func longFork(seed uint64) poolsim.Case {
 	add := func(ids []int) poolsim.Step {
 		return poolsim.Step{Kind: "chain", Op: mgrsim.Op{Kind: "add", Nodes: ids}}
 	}
-	// tip A80, then B81: bases on A for the tip-based entry points
-	cs.Plan = []poolsim.Step{add(append([]int{1, 2}, seq(A, 1, 80)...)), add(seq(B, 1, 81))}
-	for _, k := range []int{70, 64, 63, 40} {
+	// tip A(h-1), then B(h): bases on A for the tip-based entry points, at D+7, D+1, D and D-23 blocks
+	h := D/2 + 9
+	cs.Plan = []poolsim.Step{add(append([]int{1, 2}, seq(A, 1, h-1)...)), add(seq(B, 1, h))}
+	seen := map[int]bool{}
+	for _, k := range []int{D - h + 7, D - h + 1, D - h, D - h - 23} {
+		if k < 1 || k > h-1 || seen[k] {
+			continue
+		}
+		seen[k] = true
 		cs.Plan = append(cs.Plan, poolsim.Step{Kind: "txset", Flavor: "basis-node", Op: mgrsim.Op{Nodes: []int{A(k)}}, Seed: uint64(k)})
 		cs.Plan = append(cs.Plan, poolsim.Step{Kind: "submit-at", Op: mgrsim.Op{Nodes: []int{A(k)}}, Seed: uint64(k) + 1000})
 	}
-	cs.Plan = append(cs.Plan, add(seq(A, 81, 145)), add(seq(B, 82, 146)))
+	cs.Plan = append(cs.Plan, add(seq(A, h, D+1)), add(seq(B, h+1, D+2)))
 	// UpdateV2TransactionSet: (reverted, applied) leg pairs
-	for _, p := range [][2]int{{144, 0}, {72, 72}, {72, 73}, {80, 70}, {144, 144}, {1, 144}, {145, 0}, {0, 144}, {0, 145}, {100, 45}, {144, 1}} {
+	a1, a2 := D*5/9, D*25/36
+	for _, p := range [][2]int{{D, 0}, {D / 2, D - D/2}, {D / 2, D - D/2 + 1}, {a1, D - a1 + 6}, {D, D}, {1, D}, {D + 1, 0}, {0, D}, {0, D + 1}, {a2, D - a2 + 1}, {D, 1}} {
 		from, to := 2, 2
 		if p[0] > 0 {
 			from = A(p[0])
@@ -1417,6 +1525,11 @@ func run(c *hx.Ctx) {
 	res.Shard = 12
 	res.Rule = "fork trees of real mined blocks (v2 regimes, every v2 transaction kind in the blocks) with every branch submitted; UpdateV2TransactionSet for pairs of blocks within distance 6 (same branch forwards/backwards, across forks, never-applied fork blocks) and at 143..146 blocks on a long line, with sets valid at the source (fresh, ephemeral chains, mixed confirmed+ephemeral parents, the transactions of a child block: formations, revisions, renewals, storage proofs, expirations, siafunds), corrupted proofs, leaf indices and bases; V2TransactionSet / UnconfirmedParents over pools with dependent transactions (pooled, new child, child of the other kind, stale basis); non-trivial := a rebase across a fork succeeded and one was refused; distinct by (tree seed, plan)"
 	var cases []string
+	// the supported distance is a parameter of the implementation: measured, not assumed
+	if note := poolsim.ProbeDistance(1); note != "" {
+		res.Notes = append(res.Notes, note)
+	}
+	res.CountN("supported-distance", poolsim.MaxDist)
 	doCase := func(cs poolsim.Case) {
 		coq, f, st, r := runCase(cs, true)
 		js, _ := json.Marshal(cs)
@@ -1474,8 +1587,10 @@ func run(c *hx.Ctx) {
 	for _, cs := range poolsim.Corpus("C13") {
 		doCase(cs)
 	}
-	doCase(longLine(c.Seed))
-	doCase(longFork(c.Seed))
+	if poolsim.DistBounded && poolsim.MaxDist >= 8 {
+		doCase(longLine(c.Seed))
+		doCase(longFork(c.Seed))
+	}
 	n := c.Scale(90, 2000)
 	for i := 0; i < n; i++ {
 		g := c.R.Fork()
